@@ -2,7 +2,7 @@
 use super::{op_line, Gen};
 use crate::wire::data_of;
 
-pub const OPS: [&str; 56] = [
+pub const OPS: [&str; 59] = [
     "lcc lat_1=57 lon_0=12",
     "lcc lat_1=-33 lat_2=-45 lon_0=10",
     "omerc latc=55 lonc=12 alpha=30 gamma_c=30 k_0=0.9996",
@@ -37,6 +37,10 @@ pub const OPS: [&str; 56] = [
     "geo:in | utm zone=33 | neu:out",
     "adapt from=neuf_deg to=enuf_rad",
     "axisswap order=2,-1,3",
+    // (orders that are not their own inverse, and that reach beyond what a short container stores)
+    "axisswap order=2,3,1",
+    "axisswap order=-3,1,2",
+    "axisswap order=4,1,2,3",
     "unitconvert xy_in=deg xy_out=rad z_in=ft",
     "stack push=1,2 | addone | stack pop=1,2",
     "stack push=3 | helmert x=1 dx=1 t_epoch=2000 | stack flip=1 | stack pop=2",
